@@ -158,6 +158,11 @@ class ParserX(rs.Parser):
             elif not self.at("}"):
                 raise Unsupported("`%s` with a label or a value" % x.text, x.pos)
             return N(x.text, x.pos)
+        if x.kind == "op" and x.text == "{":
+            b = self.block()
+            if b.tail is not None and b.tail.kind not in ("if", "match"):
+                raise Unsupported("block expression", x.pos)
+            return N("blocks", x.pos, b=b)
         if x.kind == "id" and x.text == "match":
             e = self.match_()
             if self.at(";"):
@@ -370,6 +375,10 @@ class FnTranslatorX(rs.FnTranslator):
         self.structs.update(fspec.get("structs", {}))
         self.self_calls = dict(unit.get("self_calls", {}))
         self.self_calls.update(fspec.get("self_calls", {}))
+        self.mut_calls = dict(fspec.get("mut_calls", {}))
+        for key, f in self.mut_calls.items():
+            self.absfns["%mut:" + key] = dict(lean=f["lean"], args=[a for a in f["args"] if not a.startswith("closure:")],
+                                              ret=f["ret"], monadic=True)
         self.struct_calls = dict(unit.get("struct_calls", {}))
         self.struct_calls.update(fspec.get("struct_calls", {}))
         self.struct_skip = dict(unit.get("struct_skip", {}))
@@ -505,6 +514,8 @@ class FnTranslatorX(rs.FnTranslator):
             self._mut_expr(n.init, decl, out)
         elif k == "letdecl":
             pass
+        elif k == "blocks":
+            self._assigned(n.b, decl, out)
         elif k == "assign":
             r = self._lhs_root(n.lhs)
             if n.lhs.kind == "un" and n.lhs.op == "*":
@@ -561,6 +572,13 @@ class FnTranslatorX(rs.FnTranslator):
                 return False
             if n.kind == "closure":
                 return False
+            if n.kind == "call" and "::".join(n.path) in getattr(self, "mut_calls", {}):
+                f = self.mut_calls["::".join(n.path)]
+                for a, at in zip(n.args, f["args"]):
+                    if at.replace(" ", "").startswith("&mut"):
+                        r = self._lhs_root(a)
+                        if r not in decl and r not in out:
+                            out.append(r)
             if n.kind == "mcall":
                 if n.recv.kind == "var" and n.recv.name == "self" and n.name in self.self_calls:
                     for w in self.self_calls[n.name].get("writes", []):
@@ -572,6 +590,19 @@ class FnTranslatorX(rs.FnTranslator):
                         out.append(r)
             return True
         walk(e, f)
+
+    def outer_vars(self, names, node):
+        """`*r = e` inside an `if` of an `iter_mut()` loop body: the element variable `r` itself is the assigned variable"""
+        vs = []
+        for nm in names:
+            if nm.startswith("*"):
+                v = self.lookup(nm[1:], node)
+                if not v.ref_elem:
+                    self.err("`%s = …` outside an `iter_mut()` loop" % nm, node)
+                vs.append(v)
+            else:
+                vs.append(self.lookup(nm, node))
+        return vs
 
     def pat_names_x(self, p):
         if p.kind == "pid":
@@ -779,6 +810,15 @@ class FnTranslatorX(rs.FnTranslator):
         rt_ = self.peek_type(e.recv)
         if isinstance(rt_, TOpaque):
             return self.opaque_call(e, code)
+        if recv.kind == "var" and "%s.%s" % (recv.name, nm) in self.absfns:
+            return self.abs_call("%s.%s" % (recv.name, nm), e, code)
+        if nm in ("into_iter", "clone") and not e.args and isinstance(self.peek_type(e.recv), TAbs):
+            return self.expr(e.recv, code, expected)
+        if nm == "last" and not e.args:
+            r, t = self.expr(e.recv, code)
+            if not isinstance(t, TSeq):
+                self.err("`.last()` on %r" % (t,), e)
+            return "%s.getLast?" % atom(r), TOpt(t.elem)
         if nm == "is_empty" and not e.args:
             r, t = self.expr(e.recv, code)
             if not isinstance(t, TSeq):
@@ -1114,6 +1154,10 @@ class FnTranslatorX(rs.FnTranslator):
         if k == "matchs":
             _, t = self.match_expr(s.e, code, None)
             return
+        if k == "blocks":
+            # `{ … }` as a statement: its `let`s are local, assignments to outer variables stay (same Lean names)
+            self.block(N("block", s.b.pos, stmts=self.stmts_of(s.b), tail=None), code, False)
+            return
         if k in ("break", "continue"):
             self.err("`%s` in a position the continuation-style translation does not reach (e.g. inside a nested `match`)" % k, s)
         if k == "let" and s.pat.kind == "ptuple" and strip(s.init).kind != "tuple" and s.ty is None \
@@ -1172,6 +1216,31 @@ class FnTranslatorX(rs.FnTranslator):
         return rs.FnTranslator.assign(self, s, code)
 
     def expr_stmt(self, e, code):
+        if e.kind == "call" and "::".join(e.path) in self.mut_calls:
+            f = self.mut_calls["::".join(e.path)]
+            if len(e.args) != len(f["args"]):
+                self.err("`%s` called with %d arguments, the spec says %d" % ("::".join(e.path), len(e.args), len(f["args"])), e)
+            parts, target = [], None
+            for a, at in zip(e.args, f["args"]):
+                if at.startswith("closure:"):
+                    # the closure is part of the contract of the abstract function: its text is pinned
+                    got = " ".join(self.body_text[a.pos - self.body_pos:].split())
+                    if a.kind != "closure" or not got.replace(" ", "").startswith(at[len("closure:"):].replace(" ", "")):
+                        self.err("the closure passed to `%s` is no longer `%s`" % ("::".join(e.path), at[len("closure:"):]), a)
+                    continue
+                want = self.ty_of_text(at)
+                if at.replace(" ", "").startswith("&mut"):
+                    target = self.container(a, e)
+                    if target is None:
+                        self.err("`&mut` argument of `%s` is not a variable" % "::".join(e.path), a)
+                sv, st_ = self.expr(a, code, want)
+                if st_ != want:
+                    self.err("argument of `%s` has type %r, the spec says %r" % ("::".join(e.path), st_, want), a)
+                parts.append(atom(sv))
+            if f["lean"] not in self.used_abs:
+                self.used_abs.append(f["lean"])
+            code.bind(target.lean if target is not None else "_", ("call", f["lean"] + "".join(" " + p_ for p_ in parts)))
+            return
         if e.kind == "mcall":
             recv = strip(e.recv)
             if recv.kind == "var" and recv.name == "self":
